@@ -720,7 +720,8 @@ def forwarder_stage(rep, ctx):
 
 def check(rep):
     import c20
-    ctx = vlib.prepare(rep, harnesses={'wire': WIRE, 'c12srv': SRV12, 'c12cli': CLI12, 'fwd': c20.harness_spec()['srv']},
+    import srvlib, fwdlib
+    ctx = vlib.prepare(rep, harnesses={'wire': WIRE, 'c12srv': SRV12, 'c12cli': CLI12, 'fwd': c20.harness_spec()['srv'], 'srv': srvlib.SRV},
                        sanitize=(rep.tier == 'thorough'), model='WIRE')
     g = Gen(rep.seed, rep.tier)
     # corpus first
@@ -845,6 +846,9 @@ def check(rep):
     rep.cov['history_distribution'] = hstats
     rep.cov['evaluations'] = evaluations
     forwarder_stage(rep, ctx)
+    # what is forwarded to another client is what the sender sent: nothing that an earlier packet left in a session's reassembly buffer
+    # (DNS-mode and raw-mode senders, recipient busy: the out-queue path; slot re-use).  The stage is shared with C01.
+    fwdlib.stage(rep, ctx, key='forwarded')
     if not rep.violations:
         ctx.report_broken()
     return rep
